@@ -45,10 +45,15 @@ func respond(letter byte, sse bool) stack.Behaviour {
 		bh.Headers = append(bh.Headers, [2]string{"Content-Type", "text/event-stream"})
 	} else {
 		bh.Framing = "cl"
-		bh.Headers = append(bh.Headers, [2]string{"Content-Type", "application/json"})
+		if !noContentType {
+			bh.Headers = append(bh.Headers, [2]string{"Content-Type", "application/json"})
+		}
 	}
 	return bh
 }
+
+// noContentType: the backend's responses carry no Content-Type header at all (legal; "arbitrary response headers")
+var noContentType bool
 
 func faults(thorough bool) []fault {
 	fs := []fault{
@@ -83,9 +88,13 @@ type cfg struct {
 	engine, profile, balancer string
 	sse                       bool
 	k                         int
+	noct                      bool // responses without a Content-Type header
 }
 
 func (c cfg) String() string {
+	if c.noct {
+		return fmt.Sprintf("engine=%s profile=%s balancer=%s sse=%v (no Content-Type header) k=%d", c.engine, c.profile, c.balancer, c.sse, c.k)
+	}
 	return fmt.Sprintf("engine=%s profile=%s balancer=%s sse=%v k=%d", c.engine, c.profile, c.balancer, c.sse, c.k)
 }
 
@@ -107,7 +116,10 @@ func main() {
 			for _, b := range balancers {
 				for _, sse := range []bool{false, true} {
 					for k := 1; k <= 3; k++ {
-						cfgs = append(cfgs, cfg{e, p, b, sse, k})
+						cfgs = append(cfgs, cfg{e, p, b, sse, k, false})
+					}
+					if !sse && p == "auto" {
+						cfgs = append(cfgs, cfg{e, p, b, sse, 2, true})
 					}
 				}
 			}
@@ -143,6 +155,8 @@ func names(fs []fault) []string {
 }
 
 func runConfig(c cfg, fs []fault) {
+	noContentType = c.noct
+	defer func() { noContentType = false }()
 	letters := []byte{'A', 'B', 'C'}
 	var bes []*stack.Backend
 	var eps []stack.EP
